@@ -116,6 +116,9 @@ def int_boundary(extended: bool) -> list[int]:
     ds = (-2, -1, 0, 1, 2) if extended else (-1, 0, 1)
     s = {0, 1, -1, 2, -2, 3, -3} if extended else {0, 1, -1, 2, -2}
     s.update([(1 << 1100) + 1, -(1 << 1100) - 1])  # beyond the double range
+    # in-band error sentinels of the unboxed representations (-113 for i64/i32/i16/float, 239 for u8):
+    # a legitimate result equal to the sentinel must not be mistaken for an error
+    s.update([-113, 113, -226, 226, -112, -114, 239, 478, 240, 238])
     for k in ks:
         for d in ds:
             s.add((1 << k) + d)
@@ -133,7 +136,7 @@ def int_randoms(rnd: random.Random, n: int) -> list[int]:
 
 
 def float_boundary() -> list[float]:
-    vals = [0.0, -0.0, 1.0, -1.0, 0.5, -0.5, 1.5, -1.5, 2.5, -2.5, 2.0, 3.0, -3.0, 0.1, -0.1, 1e-5, 7.25, -7.25,
+    vals = [-113.0, 113.0, -226.0, 226.0, 0.0, -0.0, 1.0, -1.0, 0.5, -0.5, 1.5, -1.5, 2.5, -2.5, 2.0, 3.0, -3.0, 0.1, -0.1, 1e-5, 7.25, -7.25,
             math.inf, -math.inf, math.nan,
             5e-324, -5e-324, 2.2250738585072014e-308, 2.225073858507201e-308, 1.7976931348623157e308, -1.7976931348623157e308,
             1e308, 1e154, 1.3407807929942597e154, 1e-200, 1e16, 1e22, 1e23, 123456789.987654321, -123456789.987654321, math.pi, -math.e]
